@@ -110,6 +110,12 @@ pub fn c02(seed: u64, n: usize) {
             let pose = ks.core().forward(&q);
             let j6 = *r.pick(&[0.0, q[5], 1.0]);
             emit_inv5("C02", &format!("{}/5dof-entry", rfam), &ks, &pose, j6, Some(&q));
+            // ... also behind a base and a tool (the wrappers undo their transform on the proper side)
+            let mut ks2 = ks.clone();
+            ks2.stack = vec![Wrap::B(rand_iso(&mut r, 0.5)), Wrap::T(crate::gen::axial_iso(&mut r))];
+            let pose2 = ks2.build().forward(&q);
+            emit_invc5("C02", &format!("{}/5dof-entry/based", rfam), &ks2, &pose2, &q, Some(&q));
+            emit_inv("C02", &format!("{}/based", rfam), &ks2, &pose2, Some(&q));
         }
     }
 }
